@@ -137,6 +137,24 @@ fn run_stage1(c: &mut Ctx) {
             c.fail("parse_and_remainder panicked", &format!("fmt {:?} text {:?}", fmt, text));
         }
         c.op(&format!("ps.items {} {}", enc, hex(text.as_bytes())), &got);
+        // the owned form of the same items (`StrftimeItems::parse_to_owned`, `Item::to_owned`) is the same format
+        let owned: Vec<Item<'static>> = items.iter().map(|x| x.clone().to_owned()).collect();
+        let got_owned = gs(
+            || {
+                let mut p = Parsed::new();
+                parse_and_remainder(&mut p, &text, owned.iter()).map(|rest| (dump_parsed(&p), rest.len()))
+            },
+            |r| match r {
+                Ok((d, rest)) => format!("ok {} rest={}", d, rest),
+                Err(e) => format!("err {}", err_kind(&e)),
+            },
+        );
+        if got_owned != got {
+            c.fail(
+                "owned items parse differently from the borrowed items of the same format string",
+                &format!("fmt {:?} text {:?}: borrowed {} owned {}", fmt, text, got, got_owned),
+            );
+        }
         if i < 3 {
             c.sample(&format!("fmt {:?} text {:?} -> {}", fmt, text, got));
         }
@@ -411,7 +429,7 @@ fn gen_date_for(c: &mut Ctx, f: Option<&DForm>) -> NaiveDate {
 }
 fn gen_time2(c: &mut Ctx) -> NaiveTime {
     let secs = if c.rng.chance(1, 3) { c.rng.below(86400) as u32 } else { *c.rng.pick(SECS2) };
-    let mut frac = if c.rng.chance(1, 4) { c.rng.below(1_000_000_000) as u32 } else { *c.rng.pick(FRACS2) };
+    let mut frac = if c.rng.chance(1, 4) { c.rng.nanos() } else { *c.rng.pick(FRACS2) };
     if secs % 60 == 59 && c.rng.chance(1, 2) {
         frac = *c.rng.pick(LEAPS);
     } else if c.rng.chance(1, 40) {
@@ -793,6 +811,51 @@ fn run_case(c: &mut Ctx, form: &Form, v: &Val, sample: bool) {
     }
 }
 
+/// Surplus white space at the white space of the separator between the date and the time part, placed
+/// by the harness's own knowledge of the format (`<date fmt><sep><time fmt>`), not by the crate's
+/// tokenisation of it: the white-space characters of `sep` are white space of the format whatever
+/// stands next to them.
+fn sep_space_case(c: &mut Ctx, dfmt: &str, sep: &str, tfmt: &str, v: &Val) {
+    if !sep.chars().any(char::is_whitespace) {
+        return;
+    }
+    let (a, b) = match (v.format(dfmt), v.format(tfmt)) {
+        (Ok(Ok(a)), Ok(Ok(b))) => (a, b),
+        _ => return,
+    };
+    let fmt = format!("{dfmt}{sep}{tfmt}");
+    let target = v.tname();
+    let base = show_parse(&parse_as(target, &format!("{a}{sep}{b}"), &fmt));
+    let mut sep2 = String::new();
+    for ch in sep.chars() {
+        if ch.is_whitespace() {
+            match c.rng.below(3) {
+                0 => {
+                    sep2.push(ch);
+                    sep2.push_str(*c.rng.pick(WS_EXTRA));
+                }
+                1 => {
+                    sep2.push_str(*c.rng.pick(WS_EXTRA));
+                    sep2.push(ch);
+                }
+                _ => sep2.push_str(*c.rng.pick(WS_EXTRA)),
+            }
+        } else {
+            sep2.push(ch);
+        }
+    }
+    let t2 = format!("{a}{sep2}{b}");
+    let shown = show_parse(&parse_as(target, &t2, &fmt));
+    c.op(&format!("pf.p {} {} {}", target, hex(fmt.as_bytes()), hex(t2.as_bytes())), &shown);
+    c.count("perturb:separator-space");
+    if base.starts_with("ok") && shown != base {
+        c.fail(
+            "surplus white space at the white space of a separator changes the parse result",
+            &format!("{} fmt {:?} text {:?} -> [{}], {:?} -> [{}]", target, fmt, format!("{a}{sep}{b}"), base, t2, shown),
+        );
+    }
+}
+
 fn mk_form(d: Option<&DForm>, sep: &str, t: Option<&TForm>, tail: &str, off: bool, ts: bool) -> Form {
     let mut fmt = String::new();
     if let Some(d) = d {
@@ -826,7 +889,7 @@ fn run_family(c: &mut Ctx) {
     let dfs = date_forms();
     let tfs = time_forms();
     let k = c.n(2, 12);
-    let dtseps = [" ", "T", "  ", ", ", "_", " at "];
+    let dtseps = [" ", "T", "  ", ", ", "_", " at ", "\u{5e74}\u{3000}", "\u{a0}", "h\u{2003}m", "\u{e9} \u{2028}"];
     c.count_n("family:date-forms", dfs.len() as u64);
     c.count_n("family:time-forms", tfs.len() as u64);
     // every specifier the reader can invert occurs in some member
@@ -866,6 +929,9 @@ fn run_family(c: &mut Ctx) {
                 for j in 0..5 * k {
                     let v = gen_naive(c, Some(df));
                     run_case(c, &form, &Val::N(v), i % 89 == 0 && j == 0 && r == 0);
+                    if j % 2 == 0 {
+                        sep_space_case(c, &df.fmt, sep, &tf.fmt, &Val::N(v));
+                    }
                 }
             }
             let (tail, off, ts) = match (i + r) % 6 {
